@@ -717,4 +717,382 @@ theorem floorAgg_of_aligned (A : Agg) (h : TimesAligned A) : floorAgg A = A := b
       · rfl
       · simp only; omega
 
+
+/-! ### totals (law-free) -/
+
+theorem SecEq.refl (a : Sem) : SecEq a a := ⟨rfl, rfl, rfl, fun _ => rfl, rfl, rfl⟩
+theorem SecEq.trans {a b c : Sem} (h : SecEq a b) (g : SecEq b c) : SecEq a c :=
+  ⟨h.1.trans g.1, h.2.1.trans g.2.1, h.2.2.1.trans g.2.2.1, fun x => (h.2.2.2.1 x).trans (g.2.2.2.1 x),
+   h.2.2.2.2.1.trans g.2.2.2.2.1, h.2.2.2.2.2.trans g.2.2.2.2.2⟩
+theorem SecEq.of_eq {a b : Sem} (h : a = b) : SecEq a b := h ▸ SecEq.refl a
+
+theorem min_div (x y : Nat) : Nat.min x y / 1000 = Nat.min (x / 1000) (y / 1000) := by
+  show min x y / 1000 = min (x / 1000) (y / 1000)
+  simp only [Nat.min_def]; split <;> split <;> omega
+
+theorem max_div (x y : Nat) : Nat.max x y / 1000 = Nat.max (x / 1000) (y / 1000) := by
+  show max x y / 1000 = max (x / 1000) (y / 1000)
+  simp only [Nat.max_def]; split <;> split <;> omega
+
+theorem omin_map_div (a b : Option Nat) :
+    (omin a b).map (· / 1000) = omin (a.map (· / 1000)) (b.map (· / 1000)) := by
+  cases a <;> cases b <;> simp [omin, min_div]
+
+theorem omax_map_div (a b : Option Nat) :
+    (omax a b).map (· / 1000) = omax (a.map (· / 1000)) (b.map (· / 1000)) := by
+  cases a <;> cases b <;> simp [omax, max_div]
+
+theorem SecEq.add {a a' b b' : Sem} (h : SecEq a a') (g : SecEq b b') : SecEq (a.add b) (a'.add b') := by
+  obtain ⟨h1, h2, h3, h4, h5, h6⟩ := h
+  obtain ⟨g1, g2, g3, g4, g5, g6⟩ := g
+  refine ⟨?_, ?_, ?_, ?_, ?_, ?_⟩
+  · simp [Sem.add, h1, g1]
+  · simp [Sem.add, h2, g2]
+  · simp [Sem.add, h3, g3]
+  · intro c; simp [Sem.add, h4 c, g4 c]
+  · simp only [Sem.add, omin_map_div, h5, g5]
+  · simp only [Sem.add, max_div, h6, g6]
+
+/-- changing every value by a function that preserves the summary up to seconds -/
+theorem secEq_sem_map {κ : Type} (g : EAgg → EAgg) (hg : ∀ a, SecEq (semOf (g a)) (semOf a))
+    (M : List (κ × EAgg)) (P : κ → Bool) :
+    SecEq (sem (M.map fun p => (p.1, g p.2)) P) (sem M P) := by
+  induction M with
+  | nil => exact SecEq.refl _
+  | cons p rest ih =>
+    simp only [List.map_cons, sem_cons]
+    refine SecEq.add ?_ ih
+    by_cases h : P p.1 = true
+    · simp only [h, if_true]; exact hg p.2
+    · simp only [h]; exact SecEq.refl _
+
+theorem secEq_floor (a : EAgg) : SecEq (semOf (toMs (toSec a))) (semOf a) := by
+  refine ⟨rfl, rfl, rfl, fun _ => rfl, ?_, ?_⟩
+  · simp [semOf, toMs, toSec]
+  · simp [semOf, toMs, toSec]
+
+theorem isem_map_floor {κ : Type} (M : List (κ × Nat)) (P : κ → Bool) :
+    (isem (M.map fun p => (p.1, p.2 / 1000 * 1000)) P).map (· / 1000) = (isem M P).map (· / 1000) := by
+  induction M with
+  | nil => rfl
+  | cons p rest ih =>
+    simp only [List.map_cons, isem_cons, omax_map_div, ih]
+    by_cases h : P p.1 = true <;> simp [h]
+
+/-- the same one-record aggregates under two key functions that the predicates cannot tell apart -/
+theorem sem_map_keys_congr {κ κ' : Type} (rs : List Rec) (K : Rec → κ) (K' : Rec → κ')
+    (P : κ → Bool) (P' : κ' → Bool) (h : ∀ r ∈ rs, P (K r) = P' (K' r)) :
+    sem (rs.map fun r => (K r, single r)) P = sem (rs.map fun r => (K' r, single r)) P' := by
+  induction rs with
+  | nil => rfl
+  | cons r rest ih =>
+    simp only [List.map_cons, sem_cons]
+    rw [h r (by simp), ih (fun x hx => h x (by simp [hx]))]
+
+theorem totals_floor (A : Agg) (rs : List Rec) (h : Totals A rs) : Totals (floorAgg A) rs :=
+  ⟨fun Q => (secEq_sem_map _ secEq_floor _ _).trans (h.1 Q),
+   fun Q => (secEq_sem_map _ secEq_floor _ _).trans (h.2.1 Q),
+   fun P => by simp only [floorAgg]; rw [isem_map_floor]; exact h.2.2 P⟩
+
+theorem totals_empty : Totals {} [] :=
+  ⟨fun _ => SecEq.refl _, fun _ => SecEq.refl _, fun _ => rfl⟩
+
+theorem nodupKeys_empty : NodupKeys {} := ⟨by simp, by simp, by simp⟩
+
+theorem nodupKeys_step {τ : Type} (N : Normaliser τ) (T : τ) (A : Agg) (b : List Rec) (h : NodupKeys A) :
+    NodupKeys (step N T A b).2 := by
+  unfold step
+  by_cases he : b.isEmpty = true
+  · simpa [he] using h
+  · simp only [he, Bool.false_eq_true, if_false]
+    by_cases hf : N.fails T (List.map (fun r => r.url) (external b)) = true
+    · simpa [hf] using h
+    · simp only [hf, Bool.false_eq_true, if_false]
+      have h1 : NodupKeys (if N.conv T (List.map (fun r => r.url) (external b)) = true
+          then A.rekey (N.norm (N.learn T (List.map (fun r => r.url) (external b)))) else A) := by
+        by_cases hc : N.conv T (List.map (fun r => r.url) (external b)) = true
+        · simp only [hc, if_true]
+          exact ⟨nodup_regroupG _ _, nodup_regroupG _ _, h.2.2⟩
+        · simpa [hc] using h
+      exact ⟨nodup_combineG _ _ _ h1.1, nodup_combineG _ _ _ h1.2.1, nodup_combineG _ _ _ h1.2.2⟩
+
+/-- one successful `Run` adds exactly the batch's external records to the totals — for ANY normaliser -/
+theorem totals_step {τ : Type} (N : Normaliser τ) (T : τ) (A : Agg) (b prev : List Rec)
+    (h : Totals A prev) (hf : stepFails N T b = false) :
+    Totals (step N T A b).2 (prev ++ external b) := by
+  unfold step
+  by_cases he : b.isEmpty = true
+  · have : b = [] := by cases b <;> simp_all
+    subst this
+    simpa [external] using h
+  · have hne : b.isEmpty = false := by simpa using he
+    have hf' : N.fails T (List.map (fun r => r.url) (external b)) = false := by
+      simpa [stepFails, hne] using hf
+    simp only [hne, hf', Bool.false_eq_true, if_false]
+    -- re-keying does not move anything across methods / consumer tags
+    have hA1 : Totals (if N.conv T (List.map (fun r => r.url) (external b)) = true
+          then A.rekey (N.norm (N.learn T (List.map (fun r => r.url) (external b)))) else A) prev := by
+      by_cases hc : N.conv T (List.map (fun r => r.url) (external b)) = true
+      · simp only [hc, if_true]
+        exact ⟨fun Q => by simpa [Agg.rekey, sem_rekeyE] using h.1 Q,
+               fun Q => by simpa [Agg.rekey, sem_rekeyC] using h.2.1 Q,
+               fun P => by simpa [Agg.rekey] using h.2.2 P⟩
+      · simpa [hc] using h
+    refine ⟨fun Q => ?_, fun Q => ?_, fun P => ?_⟩
+    · simp only [Agg.combine, extractAgg, sem_combineG, sem_extractKeyed, singles, List.map_append, sem_append,
+        List.map_map, Function.comp_def]
+      refine SecEq.add (by simpa [singles] using hA1.1 Q) (SecEq.of_eq ?_)
+      exact sem_map_keys_congr _ _ _ _ _ (fun r _ => rfl)
+    · simp only [Agg.combine, extractAgg, sem_combineG, sem_extractKeyed, singlesC, List.map_append, sem_append,
+        List.map_map, Function.comp_def]
+      refine SecEq.add (by simpa [singlesC] using hA1.2.1 Q) (SecEq.of_eq ?_)
+      exact sem_map_keys_congr _ _ _ _ _ (fun r _ => rfl)
+    · simp only [Agg.combine, extractAgg, isem_combineG, isem_extractI, singlesI, List.map_append, isem_append,
+        omax_map_div]
+      have := hA1.2.2 P
+      simp only [singlesI] at this
+      rw [this]
+
+/-- what links the state file to the in-memory aggregation -/
+def FileRel {τ : Type} (s : St τ) : Prop := s.file = persist s.agg ∨ s.agg = restore s.file
+
+theorem external_recsOf_batch (rs : List Rec) (rest : List Seg) :
+    external (recsOf (Seg.batch rs :: rest)) = external rs ++ external (recsOf rest) := by
+  simp [recsOf, external_append]
+
+theorem runSegs_totals {τ : Type} (N : Normaliser τ) (T0 : τ) (segs : List Seg) (s : St τ) (prev : List Rec)
+    (ht : Totals s.agg prev) (hn : NodupKeys s.agg) (hr : FileRel s) (hok : RunOK N T0 s segs) :
+    Totals (runSegs N T0 s segs).agg (prev ++ external (recsOf segs)) ∧
+    Totals (restore (runSegs N T0 s segs).file) (prev ++ external (recsOf segs)) := by
+  induction segs generalizing s prev with
+  | nil =>
+    simp only [runSegs, recsOf, external, List.filter_nil, List.append_nil]
+    refine ⟨ht, ?_⟩
+    rcases hr with hr | hr
+    · rw [hr, restore_persist_floor _ hn hok]; exact totals_floor _ _ ht
+    · rw [← hr]; exact ht
+  | cons seg rest ih =>
+    cases seg with
+    | batch rs =>
+      obtain ⟨hf, hok'⟩ := hok
+      simp only [runSegs, external_recsOf_batch, ← List.append_assoc]
+      have hstep := totals_step N s.tree s.agg rs prev ht hf
+      have hnod := nodupKeys_step N s.tree s.agg rs hn
+      by_cases he : rs.isEmpty = true
+      · have hs : stepS N s rs = s := by simp [stepS, he]
+        have : rs = [] := by cases rs <;> simp_all
+        subst this
+        rw [hs] at hok' ⊢
+        simpa [external] using ih s prev ht hn hr hok'
+      · have hs : stepS N s rs = { tree := (step N s.tree s.agg rs).1, agg := (step N s.tree s.agg rs).2,
+                                    file := persist (step N s.tree s.agg rs).2 } := by
+          simp [stepS, he, hf]
+        rw [hs] at hok' ⊢
+        exact ih _ _ hstep hnod (Or.inl rfl) hok'
+    | restart =>
+      obtain ⟨hk, hok'⟩ := hok
+      simp only [runSegs, recsOf]
+      refine ih _ prev ?_ (nodupKeys_restore _) (Or.inr rfl) hok'
+      rcases hr with hr | hr
+      · simp only [hr]; rw [restore_persist_floor _ hn hk]; exact totals_floor _ _ ht
+      · simp only; rw [← hr]; exact ht
+
+
+/-! ### the invariant `count = Σ status` along whole runs (restarts included) -/
+
+section Mem
+variable {κ α : Type} [DecidableEq κ]
+
+theorem mem_assign (M : List (κ × α)) (k : κ) (v : α) (p : κ × α) (h : p ∈ assign M k v) :
+    p ∈ M ∨ p = (k, v) := by
+  induction M with
+  | nil => simp [assign] at h; exact Or.inr h
+  | cons q rest ih =>
+    obtain ⟨k', a'⟩ := q
+    simp only [assign] at h
+    by_cases hk : k' = k
+    · simp only [hk, if_true, List.mem_cons] at h
+      rcases h with h | h
+      · exact Or.inr h
+      · exact Or.inl (by simp [h])
+    · simp only [hk, if_false, List.mem_cons] at h
+      rcases h with h | h
+      · exact Or.inl (by simp [h])
+      · rcases ih h with h | h
+        · exact Or.inl (by simp [h])
+        · exact Or.inr h
+
+theorem mem_foldl_assign (l : List (κ × α)) (p : κ × α) :
+    ∀ (M : List (κ × α)), p ∈ l.foldl (fun m q => assign m q.1 q.2) M → p ∈ M ∨ p ∈ l := by
+  induction l with
+  | nil => intro M hM; exact Or.inl (by simpa using hM)
+  | cons q rest ih =>
+    intro M hM
+    simp only [List.foldl_cons] at hM
+    rcases ih (assign M q.1 q.2) hM with h1 | h1
+    · rcases mem_assign M q.1 q.2 p h1 with h2 | h2
+      · exact Or.inl h2
+      · exact Or.inr (by simp [h2])
+    · exact Or.inr (by simp [h1])
+
+theorem mem_assignAll (l : List (κ × α)) (p : κ × α) (h : p ∈ assignAll l) : p ∈ l := by
+  rcases mem_foldl_assign l p [] h with h | h
+  · simp at h
+  · exact h
+
+end Mem
+
+theorem countOk_toMs_toSec (a : EAgg) (h : countOk a = true) : countOk (toMs (toSec a)) = true := by
+  simpa [countOk, toMs, toSec] using h
+
+theorem aggOk_restore_persist (A : Agg) (h : AggOk A) : AggOk (restore (persist A)) := by
+  constructor
+  · intro p hp
+    have h1 := mem_assignAll _ p hp
+    simp only [persist, List.mem_map] at h1
+    obtain ⟨e, he, rfl⟩ := h1
+    have h2 := mem_assignAll _ e he
+    simp only [List.mem_map] at h2
+    obtain ⟨q, hq, rfl⟩ := h2
+    exact countOk_toMs_toSec _ (h.1 q hq)
+  · intro p hp
+    have h1 := mem_assignAll _ p hp
+    simp only [persist, List.mem_map] at h1
+    obtain ⟨e, he, rfl⟩ := h1
+    have h2 := mem_assignAll _ e he
+    simp only [List.mem_map] at h2
+    obtain ⟨q, hq, rfl⟩ := h2
+    exact countOk_toMs_toSec _ (h.2 q hq)
+
+theorem aggOk_step {τ : Type} (N : Normaliser τ) (T : τ) (A : Agg) (b : List Rec) (h : AggOk A) :
+    AggOk (step N T A b).2 := by
+  unfold step
+  by_cases he : b.isEmpty = true
+  · simpa [he] using h
+  · simp only [he, Bool.false_eq_true, if_false]
+    by_cases hf : N.fails T (List.map (fun r => r.url) (external b)) = true
+    · simpa [hf] using h
+    · simp only [hf, Bool.false_eq_true, if_false]
+      refine aggOk_combine _ _ ?_ (aggOk_extract _ _)
+      by_cases hc : N.conv T (List.map (fun r => r.url) (external b)) = true
+      · simpa [hc] using aggOk_rekey _ A h
+      · simpa [hc] using h
+
+theorem stepS_tree {τ : Type} (N : Normaliser τ) (s : St τ) (b : List Rec) :
+    (stepS N s b).tree = (step N s.tree s.agg b).1 := by
+  unfold stepS step
+  by_cases he : b.isEmpty = true
+  · simp [he]
+  · simp only [he, Bool.false_eq_true, if_false]
+    by_cases hf : stepFails N s.tree b = true <;> simp [hf]
+
+theorem stepS_agg {τ : Type} (N : Normaliser τ) (s : St τ) (b : List Rec) :
+    (stepS N s b).agg = (step N s.tree s.agg b).2 := by
+  unfold stepS
+  by_cases he : b.isEmpty = true
+  · simp [he, step]
+  · simp only [he, Bool.false_eq_true, if_false]
+    by_cases hf : stepFails N s.tree b = true
+    · have : N.fails s.tree (List.map (fun r => r.url) (external b)) = true := by
+        simpa [stepFails, he] using hf
+      simp [hf, step, he, this]
+    · simp [hf]
+
+theorem stepS_file {τ : Type} (N : Normaliser τ) (s : St τ) (b : List Rec) :
+    (stepS N s b).file = s.file ∨ (stepS N s b).file = persist (stepS N s b).agg := by
+  unfold stepS
+  by_cases he : b.isEmpty = true
+  · simp [he]
+  · simp only [he, Bool.false_eq_true, if_false]
+    by_cases hf : stepFails N s.tree b = true <;> simp [hf]
+
+theorem runSegs_aggOk {τ : Type} (N : Normaliser τ) (T0 : τ) (segs : List Seg) (s : St τ)
+    (h : AggOk s.agg) (hf : AggOk (restore s.file)) :
+    AggOk (runSegs N T0 s segs).agg ∧ AggOk (restore (runSegs N T0 s segs).file) := by
+  induction segs generalizing s with
+  | nil => exact ⟨h, hf⟩
+  | cons seg rest ih =>
+    cases seg with
+    | batch rs =>
+      simp only [runSegs]
+      have ha : AggOk (stepS N s rs).agg := by rw [stepS_agg]; exact aggOk_step N _ _ _ h
+      refine ih _ ha ?_
+      rcases stepS_file N s rs with e | e
+      · rw [e]; exact hf
+      · rw [e]; exact aggOk_restore_persist _ ha
+    | restart =>
+      simp only [runSegs]
+      exact ih _ hf hf
+
+/-- restart-free runs through `St` are `runBatches` on (tree, aggregation) -/
+theorem runSegs_batches {τ : Type} (N : Normaliser τ) (T0 : τ) (bs : List (List Rec)) (s : St τ) :
+    ((runSegs N T0 s (bs.map Seg.batch)).tree, (runSegs N T0 s (bs.map Seg.batch)).agg)
+      = runBatches N (s.tree, s.agg) bs := by
+  induction bs generalizing s with
+  | nil => rfl
+  | cons b rest ih =>
+    simp only [List.map_cons, runSegs, runBatches]
+    rw [ih, stepS_tree, stepS_agg]
+
+/-! ### counts and sums of the reference attribution -/
+
+theorem sem_cons_cnt {κ : Type} (p : κ × EAgg) (M : List (κ × EAgg)) (P : κ → Bool) :
+    (sem (p :: M) P).cnt = (if P p.1 then p.2.count else 0) + (sem M P).cnt := by
+  rw [sem_cons]; by_cases h : P p.1 = true <;> simp [h, Sem.add, Sem.zero, semOf]
+
+theorem sem_cons_sd {κ : Type} (p : κ × EAgg) (M : List (κ × EAgg)) (P : κ → Bool) :
+    (sem (p :: M) P).sd = (if P p.1 then p.2.sumDur else 0) + (sem M P).sd := by
+  rw [sem_cons]; by_cases h : P p.1 = true <;> simp [h, Sem.add, Sem.zero, semOf]
+
+theorem sem_cons_st {κ : Type} (p : κ × EAgg) (M : List (κ × EAgg)) (P : κ → Bool) :
+    (sem (p :: M) P).st = (if P p.1 then p.2.sumTot else 0) + (sem M P).st := by
+  rw [sem_cons]; by_cases h : P p.1 = true <;> simp [h, Sem.add, Sem.zero, semOf]
+
+theorem sem_cons_stc {κ : Type} (p : κ × EAgg) (M : List (κ × EAgg)) (P : κ → Bool) (c : Nat) :
+    (sem (p :: M) P).stc c = (if P p.1 then stCount p.2.status c else 0) + (sem M P).stc c := by
+  rw [sem_cons]; by_cases h : P p.1 = true <;> simp [h, Sem.add, Sem.zero, semOf]
+
+theorem sem_bag_cnt {κ : Type} (rs : List Rec) (K : Rec → κ) (P : κ → Bool) :
+    (sem (rs.map fun r => (K r, single r)) P).cnt = (rs.filter fun r => P (K r)).length := by
+  induction rs with
+  | nil => rfl
+  | cons r rest ih =>
+    rw [List.map_cons, sem_cons_cnt, ih, List.filter_cons]
+    by_cases h : P (K r) = true
+    · simp [h, single]; omega
+    · simp [h]
+
+theorem sem_bag_sd {κ : Type} (rs : List Rec) (K : Rec → κ) (P : κ → Bool) :
+    (sem (rs.map fun r => (K r, single r)) P).sd = ((rs.filter fun r => P (K r)).map (·.dur)).sum := by
+  induction rs with
+  | nil => rfl
+  | cons r rest ih =>
+    rw [List.map_cons, sem_cons_sd, ih, List.filter_cons]
+    by_cases h : P (K r) = true
+    · simp [h, single]
+    · simp [h]
+
+theorem sem_bag_st {κ : Type} (rs : List Rec) (K : Rec → κ) (P : κ → Bool) :
+    (sem (rs.map fun r => (K r, single r)) P).st = ((rs.filter fun r => P (K r)).map (·.tot)).sum := by
+  induction rs with
+  | nil => rfl
+  | cons r rest ih =>
+    rw [List.map_cons, sem_cons_st, ih, List.filter_cons]
+    by_cases h : P (K r) = true
+    · simp [h, single]
+    · simp [h]
+
+theorem sem_bag_stc {κ : Type} (rs : List Rec) (K : Rec → κ) (P : κ → Bool) (c : Nat) :
+    (sem (rs.map fun r => (K r, single r)) P).stc c
+      = (rs.filter fun r => P (K r) && r.status == c).length := by
+  induction rs with
+  | nil => rfl
+  | cons r rest ih =>
+    rw [List.map_cons, sem_cons_stc, ih, List.filter_cons]
+    by_cases h : P (K r) = true
+    · by_cases hc : r.status = c
+      · simp [h, hc, single, stCount]; omega
+      · simp [h, hc, single, stCount]
+    · simp [h]
+
 end LunarVerif.C15
